@@ -378,6 +378,14 @@ func runUntrusted(c *vh.Check, u *untrusted) {
 			return append(m, payload...)
 		}
 		payload := wb[12:]
+		// 32-bit wrap-around: counts whose SUM is congruent to the vector length modulo 2^32
+		wrap := [][2]int{{np + 1, 1<<32 - 1}, {np + 2, 1<<32 - 2}, {1<<32 - 1, nv + 1 - np}, {np, 1<<32 - np + nv - np}}
+		for _, ps := range wrap {
+			if ps[0] < 0 || ps[1] < 0 || ps[0] >= 1<<32 || ps[1] >= 1<<32 {
+				continue
+			}
+			u.try(c, "witness-header-wrap", fmt.Sprintf("nbPublic=%d,nbSecret=%d,len=%d", ps[0], ps[1], nv), u.proofBytes[0], hdr(ps[0], ps[1], nv, payload), true)
+		}
 		for _, p := range []int{0, np - 1, np + 1, 2*np + 1, 1000} {
 			for _, s := range []int{0, 1, 1000} {
 				for _, l := range []int{nv, nv - 1, nv + 1, 0} {
